@@ -1,2 +1,59 @@
-From Coq Require Import ZArith List.
-From Mofun Require Import Model.Atoms.
+(* C09 -- Atoms objects stay consistent and type ids keep their meaning.
+   Model: Model/Atoms.v.  WF = every per-atom array has one entry per atom, every term row has its type and extra-field row,
+   every term refers only to existing atoms. *)
+From Coq Require Import List Arith Bool ZArith.
+From Mofun Require Import Lib.NP Model.Atoms Proofs.DelProofs Proofs.ExtProofs Proofs.ReplProofs Proofs.WFProofs.
+Import ListNotations.
+
+Theorem C09_wf_delete : forall a ds, WF a -> NoDup ds -> WF (delitem a ds).
+Proof. exact WF_delitem. Qed.
+Print Assumptions C09_wf_delete.
+
+Theorem C09_wf_extend : forall a o offs m, WF a -> WF o -> map_ok a m -> WF (extend a o offs m).
+Proof. exact WF_extend. Qed.
+Print Assumptions C09_wf_extend.
+
+(* any history of deletions and extensions (default or explicit offsets, any identity maps into existing atoms) from a consistent
+   structure: induction over the operation list *)
+Theorem C09_wf_history : forall hs a, WF a -> hpres a hs -> WF (fold_left hstep hs a).
+Proof. exact WF_history. Qed.
+Print Assumptions C09_wf_history.
+
+(* meaning of type ids.  Deletion never touches a type table and keeps the type id of every surviving atom and term
+   (C10_atoms / C10_terms).  extend_types appends other's tables after self's, so
+   - an old id still resolves to its old text, and
+   - a new item's id (other's id + offset) resolves to other's text -- also when the kind has just been emptied, because
+     after fix D7 the offset follows the table, not the (empty) term list. *)
+Theorem C09_old_id_keeps_meaning : forall (c1 c2 : list Z) t d, t < length c1 -> nth t (c1 ++ c2) d = nth t c1 d.
+Proof. exact resolve_old. Qed.
+Print Assumptions C09_old_id_keeps_meaning.
+Theorem C09_new_term_id_means_others_text : forall k ko t d, compat_kind k ->
+  nth (num_types k + t) (k_coef k ++ k_coef ko) d = nth t (k_coef ko) d.
+Proof. exact resolve_new. Qed.
+Print Assumptions C09_new_term_id_means_others_text.
+Theorem C09_new_atom_id_means_others_text : forall (t1 t2 : list Z) t d, nth (length t1 + t) (t1 ++ t2) d = nth t t2 d.
+Proof. exact atom_table_resolve. Qed.
+Print Assumptions C09_new_atom_id_means_others_text.
+
+(* the offsets extend_types hands out are exactly these *)
+Theorem C09_offsets : forall a o, snd (extend_types a o) =
+  mk_offs (length (t_el a)) (num_types (bonds a)) (num_types (angles a)) (num_types (dihedrals a)) (num_types (impropers a)).
+Proof. reflexivity. Qed.
+Print Assumptions C09_offsets.
+
+(* before fix D7 the count was taken from the term list: with all bonds deleted but a two-entry coefficient table, the offset
+   was 0 and a new bond of type 0 resolved to the OLD entry.  The repaired count gives the new text. *)
+Example C09_emptied_kind_then_extend :
+  let k := mk_kind [] [] [] [] [11%Z; 12%Z] in let ko := mk_kind [[0;1]] [0] [[]] [] [99%Z] in
+  compat_kind k /\ nth (num_types k + 0) (k_coef k ++ k_coef ko) 0%Z = 99%Z /\ nth (0 + 0) (k_coef k ++ k_coef ko) 0%Z = 11%Z.
+Proof. cbv zeta. split; [left; discriminate|]. split; reflexivity. Qed.
+
+(* non-vacuity: a history of length 3 satisfying every precondition *)
+Example C09_nonvacuous :
+  let a := mk_atoms [(0,0,0)%Z;(1,0,0)%Z;(2,0,0)%Z] [0;0;1] [0%Z;0%Z;0%Z] [0%Z;0%Z;0%Z] [[];[];[]] [] [1%Z;2%Z] [3%Z;4%Z] [5%Z;6%Z] []
+             (mk_kind [[0;1];[1;2]] [0;1] [[];[]] [] [7%Z;8%Z]) empty_kind empty_kind empty_kind None in
+  let o := mk_atoms [(5,0,0)%Z;(6,0,0)%Z] [0;0] [0%Z;0%Z] [0%Z;0%Z] [[];[]] [] [9%Z] [10%Z] [11%Z] []
+             (mk_kind [[0;1]] [0] [[]] [] [12%Z]) empty_kind empty_kind empty_kind None in
+  let r := fold_left hstep [HDel [1]; HExtend o None [(0, 1)]; HDel [0]] a in
+  (natoms r, k_tup (bonds r), map (fun j => coef_of (bonds r) j) [0]) = (2, [[0;1]], [12%Z]).
+Proof. vm_compute. reflexivity. Qed.
